@@ -56,6 +56,9 @@ func runC01(c *an.Ctx) {
 	recover := mustFunc(c, lsImp+"recoverStore")
 	if sbm := mustFunc(c, lsImp+"submitBlock"); sbm != nil && recover != nil {
 		replayCoversCommit(c, sbm, recover)
+		if eb := c.P.Func(lsImp + "executeBlock"); eb != nil {
+			replayReadsNoBlockStore(c, eb)
+		}
 	}
 	initF := mustFunc(c, lsImp+"init")
 	if submit == nil || recover == nil || initF == nil {
